@@ -20,11 +20,10 @@ Fixture(r) == /\ r.tampered => Signed(r.off, BR(r))                 \* the flipp
               /\ r.size = "large" => r.b + r.d > 1048576             \* signed ranges above 1 MiB
               /\ Covers(r.f, BR(r), r.gaplo, r.gaphi)                \* genuine geometry, A and B alike
               /\ r.mayclaim = ~r.tampered
-(* non-vacuity: the genuine document opening a history is reported valid *)
-FirstGenuine(r) == r.idx = 1 /\ ~r.tampered => ClaimsValid(Verdict(r))
+(* (Non-vacuity - every profile and size class has genuine steps that ARE reported valid - is counted by the   *)
+(* driver over the whole trace; a genuine file rejected after some history is over-rejection, not a C27 matter.) *)
 
 RecordOK   == l <= Len(Trace) => StepOK(Trace[l])
 FixtureOK  == l <= Len(Trace) => Fixture(Trace[l])
-NonVacuous == l <= Len(Trace) => FirstGenuine(Trace[l])
 TraceAccepted == TLCGet("stats").diameter = Len(Trace) + 1
 =============================================================================
